@@ -742,6 +742,11 @@ func (interp *Interpreter) ast(f ast.Node) (string, *node, error) {
 				kind = typeDecl
 			case token.VAR:
 				kind = varDecl
+				if anc.node != nil && anc.node.kind == fileStmt {
+					// At package level, the variables of "var a, b = x, y" are
+					// initialized independently of each other, in dependency order.
+					a.Specs = splitVarSpecs(a.Specs)
+				}
 			}
 			st.push(addChild(&root, anc, pos, kind, aNop), nod)
 
@@ -937,6 +942,23 @@ func (interp *Interpreter) ast(f ast.Node) (string, *node, error) {
 
 	interp.roots = append(interp.roots, root)
 	return pkgName, root, err
+}
+
+// splitVarSpecs rewrites each variable specification "a, b = x, y" in
+// "a = x" and "b = y".
+func splitVarSpecs(specs []ast.Spec) []ast.Spec {
+	var res []ast.Spec
+	for _, s := range specs {
+		vs, ok := s.(*ast.ValueSpec)
+		if !ok || len(vs.Names) < 2 || len(vs.Values) != len(vs.Names) {
+			res = append(res, s)
+			continue
+		}
+		for i, name := range vs.Names {
+			res = append(res, &ast.ValueSpec{Doc: vs.Doc, Names: []*ast.Ident{name}, Type: vs.Type, Values: []ast.Expr{vs.Values[i]}, Comment: vs.Comment})
+		}
+	}
+	return res
 }
 
 type astNode struct {
